@@ -51,6 +51,7 @@ import Sds.Proofs.Glue4
 import Sds.Proofs.Iter
 import Sds.Proofs.RLQueries
 import Sds.Proofs.RLCanon
+import Sds.Proofs.GenEqCopy
 
 namespace Sds.C11
 open Sds Outcome IterProofs
@@ -576,5 +577,37 @@ example : RL.runBCalls .checked [.bit 1, .bit 2, .bit 3, .setLen 6] {} =
     RL.runBCalls .checked [.set 1 3, .setLen 6] {} := by decide
 example : ((RL.runBCalls .checked [.bit 1, .bit 2, .bit 3, .setLen 6] {} >>= RL.ofBuilder .checked) >>=
       fun v => ok (v.len, v.ones, v.data.items, v.samples.items)) = ok (6, 3, [1, 2], [0, 0]) := by decide
+
+/-! **The three `copy_bit_vec` conversions as translated from the source on this run** (`Generated/FnsCopy.lean`; the six
+`From` impls of `support.rs` are `$target::copy_bit_vec(&source)`): generic over the source, whose `len()`,
+`count_ones()` and the list of the items of its `one_iter()` are parameters.  `BitVector`: `with_len(len, false)`, one
+`set_bit` per item, `BitVector::from`; `RLVector`: `RLBuilder::new`, one `set_bit_unchecked` per item, `set_len`,
+`RLVector::from`; `SparseVector`: `SparseBuilder::new(len, count_ones).unwrap()`, one `set_unchecked` per item,
+`try_from(..).unwrap()`.  For a source whose items are the set-bit positions of a bit sequence `B`, the code as it is NOW
+produces exactly the objects the conversion theorems above are stated about: the canonical plain bitvector over `B`, the
+run-length vector of `C11.rlOf` (`RL.ofBuilder` of the canonical flushed builder), the sparse vector `Sparse.ofValues`
+that encodes the positions. -/
+theorem copy_bit_vec_as_translated_from_source (m : Mode) (B : List Bool) (ones : Nat) (items : List (Nat × Nat))
+    (hitems : items.map (·.2) = onesPos B) :
+    (B.length + 63 < U64 →
+        Generated.gen_BitVector_copy_bit_vec m B.length ones items = ok (BitVector.ofRaw (RawVec.ofBits B))) ∧
+    (B.length < U64 → 128 * items.length + 319 < U64 →
+        ∃ x, Generated.gen_RLVector_copy_bit_vec m B.length ones items = ok x ∧
+          RL.ofBuilder m (RLCanon.canonFlushed B) = ok x ∧ x.len = B.length ∧ x.ones = B.count true) :=
+  ⟨fun hl => GenEq.bv_copy_eq_bits m B ones items hl hitems,
+   fun hB hn => by
+     obtain ⟨_, x, _, _, h3, h4, h5, h6⟩ := GenEq.rl_copy_eq_bits m B ones items hB hitems hn
+     exact ⟨x, h3, h4, h5, h6⟩⟩
+
+theorem sparse_copy_bit_vec_as_translated_from_source (m : Mode) (fw len ones : Nat) (items : List (Nat × Nat))
+    (hfw1 : 1 ≤ fw) (hfw2 : fw ≤ 63) (hu : len < U64)
+    (hh : ones + Sparse.getBuckets len (GenEq.spWidth fw len ones) + 63 < U64)
+    (hl : ones * GenEq.spWidth fw len ones + 63 < U64)
+    (hones : ones = items.length) (hm : items.length < 2 ^ 63)
+    (hsorted : (items.map (·.2)).Pairwise (· < ·)) (hp : ∀ p ∈ items.map (·.2), p < len) :
+    ∃ s, Sparse.ofValues (GenEq.spWidth fw len ones) len false (items.map (·.2)) = ok s ∧
+      Generated.gen_SparseVector_copy_bit_vec m fw len ones items = ok s ∧
+      s.Encodes len (GenEq.spWidth fw len ones) (items.map (·.2)) :=
+  GenEq.sp_copy_eq_values m fw len ones items hfw1 hfw2 hu hh hl hones hm hsorted hp
 
 end Sds.C11
